@@ -845,3 +845,41 @@ def render_layout(rng, tree):
     lead = rng.choice(["", "", " ", "\n", "; c\n"])
     trail = rng.choice(["", "", " ", "\n", " ; end"])
     return lead + "".join(out) + trail
+
+
+# ---- C16: expressions that build values of the readable subset inside the interpreter -----------
+def value_expr(rng, depth):
+    if depth <= 0 or rng.random() < 0.3:
+        k = rng.random()
+        if k < 0.2:
+            return str(rng.choice([0, 1, -1, 7, -12, 2147483647, -2147483647, -2147483648, 65536, rng.randint(-10**6, 10**6)]))
+        if k < 0.35:
+            return rng.choice(["1/2", "-3/4", "7/3", "(/ 1 -2)", "(/ 4 -6)", "(+ 1/4 1/4)", "(/ 2147483647 2)", "(/ -1 32767)", "(* 2/3 3/2)", "(- 1/2 1/2)", "(/ 6 4)"])
+        if k < 0.6:
+            import struct
+            c = rng.random()
+            if c < 0.3:
+                bits = rng.getrandbits(32)
+                if (bits >> 23) & 0xFF == 0xFF:
+                    bits &= 0x807FFFFF | (0x7E << 23)
+                x = struct.unpack("<f", struct.pack("<I", bits))[0]
+                return "%.9g" % x if ("." in "%.9g" % x or "e" in "%.9g" % x) else ("%.9g" % x) + ".0"
+            return rng.choice(["0.5", "-0.25", "1.5", "0.1", "100.0", "1e10", "-1e10", "3.4028235e38", "1e-45", "1.17549435e-38", "1e-40", "16777216.0", "0.0", "-0.0",
+                               "(/ 1.0 3)", "(* 1.1 1.1)", "(+ 0.1 0.2)", "1e21", "1e-7", "123456.789", "9.999999e-5", "0.001", "1e7", "1e16", "(/ 7 2.0)"])
+        if k < 0.7:
+            return rng.choice(["#t", "#f"])
+        if k < 0.8:
+            return "#\\" + rng.choice("aZ09(;#.'")
+        if k < 0.95:
+            return "'" + rng.choice(["a", "foo", "+", "-", "...", "->x", "a.b", "x1", "list->vector", "<=?"])
+        return "'()"
+    k = rng.random()
+    n = rng.randint(0, 6)
+    kids = [value_expr(rng, depth - 1) for _ in range(n)]
+    if k < 0.5:
+        return "(list " + " ".join(kids) + ")" if kids else "'()"
+    if k < 0.7 and kids:
+        return "(cons " + kids[0] + " " + (value_expr(rng, 0) if len(kids) == 1 else "(cons " + kids[1] + " " + value_expr(rng, 0) + ")") + ")"
+    if k < 0.85:
+        return "(vector " + " ".join(kids) + ")"
+    return "(append (list " + " ".join(kids) + ") " + value_expr(rng, 0) + ")" if kids else "(vector)"
